@@ -62,6 +62,18 @@ H_PYLEAF = "borrow_call.python_leaf_replaced"
 EXCLUDE = {H_PYLEAF: "a struct whose classical field holds a plain Python value is passed to a borrowing call"}
 
 
+#: fixed probe inputs of the finding classes (run by shard 0 unless the class is excluded; the same
+#: dict is the `probe` of the known_findings.json entry)
+PROBES = {
+    H_PYLEAF: {
+        "params": [{"n": "p0", "t": ["st", "S3"], "own": False}],
+        "body": [{"k": "mut", "op": "setfield_c", "t": ["v", "p0"], "f": "n", "xs": [["int", 3]]},
+                 {"k": "use", "f": "borrow", "e": ["v", "p0"], "ty": ["st", "S3"]}],
+        "ret": None, "ret_ty": None,
+    },
+}
+
+
 def active_exclusions():
     env = os.environ.get("VERIF_C22_EXCLUDE", "")
     act = set()
@@ -620,13 +632,15 @@ def evaluate(case):
         return (info["hazards"][0], f"model expects {exp}; compiler: {kind} ({cls})\n{text}{prog}"), info
     if kind == "crash":
         return (f"crash.{cls}", f"model expects {exp}; compiler raised a non-Guppy exception:\n{text}{prog}"), info
-    if kind == "invalid":
-        return ("invalid_hugr", f"model accepts, compiler accepts, hugr validate fails:\n{text}{prog}"), info
     if exp == "ok":
         if kind == "ok":
             return None, info
+        if kind == "invalid":
+            return ("invalid_hugr", f"model accepts, compiler accepts, hugr validate fails:\n{text}{prog}"), info
         return (f"rejected.{cls}", f"the ownership rules hold for this body, compiler says:\n{text}{prog}"), info
-    if kind == "ok":
+    if kind in ("ok", "invalid"):
+        if kind == "invalid":
+            prog = "\n(the emitted HUGR also fails validation)" + prog
         b = f"accepted.{exp}"
         if exp == "owned_mutation":
             b += "." + OP_METHOD.get(info["why"], info["why"])
@@ -653,6 +667,7 @@ class Gen:
         self.model = None
         self.nvar = 0
         self.failed = None
+        self.lenient = False
 
     # ---- helpers
     def chance(self, pct):
@@ -667,15 +682,22 @@ class Gen:
 
     def emit(self, s):
         """append a statement and run it on the model; False once the model has failed"""
-        if self.failed:
+        if self.stopped():
             return False
         self.case["body"].append(s)
         try:
             self.model.exec(s)
         except ModelError as e:
-            self.failed = e.rule
-            return False
+            if self.failed is None:
+                self.failed = e.rule
+            # after a rejected mutation of an owned value the body is still completed cleanly (as if
+            # the statement had not been there): the verdict then hinges on that statement alone
+            self.lenient = self.failed == "owned_mutation"
+            return self.lenient
         return True
+
+    def stopped(self):
+        return self.failed is not None and not self.lenient
 
     def newvar(self):
         self.nvar += 1
@@ -809,6 +831,16 @@ class Gen:
             return {"k": "expr", "e": e}
         return s
 
+    def ev_pyfield(self):
+        """assign a Python int to a classical struct field, then (mostly) lend the struct to a call"""
+        c = [(p, v) for p, v, _ in self.paths() if isinstance(v, MStruct) and v.name == "S3"]
+        if not c:
+            return self.ev_alloc()
+        p, v = self.pick(c)
+        if self.emit({"k": "mut", "op": "setfield_c", "t": p, "f": "n", "xs": [["int", self.rnd.randrange(9)]]}) \
+                and self.chance(70) and self.model.typeof(v) is not None:
+            self.emit({"k": "use", "f": "borrow", "e": p, "ty": ["st", "S3"]})
+
     def ev_mutate(self, prefer=None):
         c = [(p, v, par) for p, v, par in self.paths() if isinstance(v, (MList, MStruct))]
         if prefer is not None:
@@ -871,7 +903,7 @@ class Gen:
                     and not any(a.id in keep for a in ats))
 
         for name, t, own, v in m.params:
-            if own or self.failed:
+            if own or self.stopped():
                 continue
             if intact(v, t):
                 continue
@@ -894,7 +926,7 @@ class Gen:
     def discard_rest(self):
         """discard every live qubit that is neither returned nor part of a borrowed parameter"""
         m = self.model
-        if self.failed:
+        if self.stopped():
             return
         keep = set()
         if self.case["ret"] is not None:
@@ -938,6 +970,8 @@ class Gen:
                 self.ev_alloc()
             elif r < 62:
                 self.ev_alias()
+            elif r < 66:
+                self.ev_pyfield()
             else:
                 self.ev_mutate(prefer=self.pick([True, False, None]))
         fin = self.chance(85)
@@ -1044,6 +1078,14 @@ def worker(ctx):
 
     active = frozenset(active_exclusions())
     ctx.notes["active_exclusions"] = sorted(active)
+    if ctx.shard == 0:
+        for key, probe in PROBES.items():
+            if key in active:
+                continue  # the harness replays the probe of a listed known finding itself
+            r = replay(probe)
+            ctx.notes["probe:" + key] = "fails" if r else "passes"
+            if r:
+                ctx.violation(r[0], probe, r[1])
     specs = enum_specs()
     ctx.notes["enum_product_size"] = len(specs)
     mine = [s for i, s in enumerate(specs) if i % ctx.nshards == ctx.shard]
@@ -1106,7 +1148,7 @@ SPEC = harness.Spec(
     ],
     shards={"quick": 16, "thorough": 16},
     budget_s={"quick": 90, "thorough": 900},
-    params={"quick": {"enum": 70, "n": 150}, "thorough": {"enum": 0, "n": 4000}},
+    params={"quick": {"enum": 200, "n": 600}, "thorough": {"enum": 0, "n": 20000}},
     min_nontrivial=500,
 )
 
